@@ -23,7 +23,11 @@ Invariants (names are the mechanism keys reported by the C16 check):
       incoming block placed earlier in `order`
   I6  set(order) == blocks reachable from order[0] over `outgoing` (own DFS)
   I7  incoming/outgoing mutually consistent; the block started by the target of
-      a block's last instruction, and the fall-through block, are in `outgoing`
+      a block's last instruction, its block-stack handler (block_target) and the
+      fall-through block are in `outgoing`
+  I8  control leaves a block only at its end: no real jump and no instruction
+      that never falls through before the last position (except the documented
+      3.12 SEND surgery: JUMP_BACKWARD_NO_INTERRUPT + CLEANUP_THROW)
   J   (reference, native bytecode version only) the resolved target of every
       real jump instruction is the instruction CPython's own `dis` decodes as
       the jump target of that instruction
@@ -333,6 +337,31 @@ def check_one(oc, rep: Report, presplit=None):
         rep.v("I4 prev does not mirror next", oc, {"a": _desc(a), "b": _desc(c)})
         break
 
+  # ---- I8  basic-block shape: control leaves a block only at its end
+  # (the general "no jump inside a block" was rejected by the design because of the 3.12 SEND
+  # surgery; the documented exception is carved out exactly: JUMP_BACKWARD_NO_INTERRUPT followed by
+  # CLEANUP_THROW inside the yield block)
+  rep.evals["I8"] += 1
+  bad8 = None
+  for b in order:
+    code = b.code
+    for k, a in enumerate(code[:-1]):
+      cls = type(a)
+      if cls.does_jump() or cls.no_next():
+        nxt = code[k + 1]
+        if (version >= (3, 12) and _opname(a) == "JUMP_BACKWARD_NO_INTERRUPT"
+            and _opname(nxt) == "CLEANUP_THROW"):
+          continue
+        bad8 = (a, nxt, b)
+        break
+    if bad8:
+      break
+  if bad8:
+    a, nxt, b = bad8
+    what = "jump" if type(a).does_jump() else "non-falling-through instruction"
+    rep.v(f"I8 {what} in the middle of a block", oc,
+          {"instr": _desc(a), "followed_by": _desc(nxt), "block": [_desc(o) for o in b.code][:12]})
+
   # ---- I5  entry and predecessor-before
   rep.evals["I5"] += 1
   if order[0].code[0].index != 0:
@@ -387,6 +416,18 @@ def check_one(oc, rep: Report, presplit=None):
   in_any = None
   if presplit is not None:
     in_any = {id(op) for b in presplit for op in b.code}
+  # I7c: the block-stack target (handler reached when the block is popped / a raise)
+  for b in order:
+    last = b.code[-1]
+    bt = getattr(last, "block_target", None)
+    if bt is not None:
+      tb = starts.get(id(bt))
+      if tb is None:
+        rep.notjudged["I7_block_target_block_unknown"] += 1
+      elif not any(x is tb for x in b.outgoing):
+        rep.v("I7 block-stack edge missing: handler block of a block's last instruction not in outgoing", oc,
+              {"last": _desc(last), "kind": _opname(last), "block_target": _desc(bt)})
+        break
   for b in order:
     last = b.code[-1]
     out_ids = {id(x) for x in b.outgoing}
